@@ -11,5 +11,4 @@ print(' '.join(c['property_id'] for c in json.load(open('/verif/MANIFEST.json'))
   timeout $limit /verif/bin/vpcheck run --property $p --tier thorough > /verif/out/thorough_$p.log 2>&1
   code=$?
   echo "$p exit=$code $(( $(date +%s) - start ))s $(grep -c '^VIOLATION\|^INCONCLUSIVE\|^ENCODING' /verif/out/thorough_$p.log) flagged"
-  pkill -x z3 2>/dev/null
 done
